@@ -297,7 +297,29 @@ def worker_scenario(rng, size='quick', **over):
                 lines += [f'w {k} {rng.choice(TS_POOL)} - 5 {seed}', 'states']
                 seed += 1
     y = rng.random()
+    if y < 0.08:
+        # the worker is kept busy by a slow predicate while 1024 requests fill its queue to capacity; the writes that
+        # take the active blob over its limit happen right then: the rotation must still come (multi-thread runtime:
+        # the predicate sleeps on a worker thread)
+        lines = [line.replace('rt=ct', 'rt=mt'), 'states']
+        for i in range(maxdata - 1):
+            lines += [f'w {rng.choice(keys)} {rng.choice(TS_POOL)} - 5 {i + 1}', 'states']
+        lines += ['wait 260', 'nomodel', f'force slow:{rng.choice([900, 1300])} @nodrain', 'flood 1024',
+                  f'w {keys[0]} 9 - 5 77', 'states', 'quiesce', 'states', 'alive', 'settle', 'close', 'open', 'states', 'counts']
+        return lines
     if y < 0.2:
+        # a deferred index dump comes due while a dump task is still running (its index file creation is stalled); the
+        # next deferred dump must still be carried out
+        lines = [line.replace(f'maxdata={maxdata}', 'maxdata=1000000') + ' defer=100,300', 'states']
+        k1, k2 = keys[0], keys[1]
+        for b in range(2):
+            lines += [f'w {k1} {rng.choice([3, 5])} - 10 {2 * b + 1}', 'states', f'w {k2} {rng.choice([3, 5])} - 10 {2 * b + 2}', 'states',
+                      'close_active', 'states']
+        lines += ['settle', 'res', 'nomodel', f'd {k1} 9 - 1', 'states', 'fault create 0 .index pause:1', 'free @nodrain',
+                  f'wait {rng.choice([450, 600])}', 'release 1', 'quiesce', 'clearfaults', 'states',
+                  f'd {k2} 11 - 1', 'states', 'wait 2500', 'quiesce', 'res @alldumped', 'alive', 'close', 'open', 'states', 'counts']
+        return lines
+    if y < 0.32:
         # several closed blobs whose indexes are back in memory (a delete reached them), then ONE dump request while the
         # first index file creation stalls for longer than the pass's time quantum: the request must still dump them all
         kk = keys[0]
@@ -306,10 +328,11 @@ def worker_scenario(rng, size='quick', **over):
         for b in range(nb):
             lines += [f'w {kk} {rng.choice([3, 5])} - 10 {b + 1}', 'states', 'close_active', 'states']
         lines += ['settle', 'res', f'd {kk} 9 - 1', 'states', 'res', 'nomodel',
-                  'fault create 0 .index pause:1', f'releaselater 1 {rng.choice([300, 450])}', 'free', 'quiesce', 'clearfaults', 'res',
+                  'fault create 0 .index pause:1', f'releaselater 1 {rng.choice([300, 450])}', 'free', 'wait 3000', 'quiesce',
+                  'clearfaults', 'res @alldumped',
                   'alive', 'settle', 'res', 'close', 'open', 'states', 'counts']
         return lines
-    if y < 0.45:
+    if y < 0.5:
         # requests are still queued when `close` is called (no probe in between): close returns
         pre = [f'w {rng.choice(keys)} {rng.choice(TS_POOL)} - 5 {seed}', 'states']
         calls = rng.choice([['close_active_bg', 'restore_active_bg'], ['close_active_bg', 'create_active_bg'],
@@ -691,6 +714,24 @@ def filter_scenario(rng, size='quick', **over):
         lines += [rng.choice(['close_active', 'force always']), 'quiesce', 'states']
         for kk in keys + absent[:1]:
             lines += [f'cf {kk}', f'cfs {kk}', f'gfc {kk}', f'c {kk}']
+    if bloom != 'off' and rng.random() < 0.2:
+        # the storage is reopened with another number of hashers (same bit count): filters of old and new blobs cannot
+        # be merged, a group holding both must answer "maybe" (judged by the no-false-negative oracle only)
+        el, k, mb = bloom.split(',')
+        k2 = int(k) + rng.choice([1, -1]) if int(k) > 1 else int(k) + 1
+        for kk in keys[:3]:
+            lines += [f'w {kk} {rng.choice(TS_POOL)} - 3 {seed}', 'states']
+            seed += 1
+        lines += [rng.choice(['close_active', 'force always']), 'quiesce', 'states', 'settle', 'nomodel',
+                  f'restart bloom={el},{k2},{mb}', 'states']
+        for rnd in range(rng.choice([1, 2, 3])):
+            for kk in keys[3:] + absent[1:2]:
+                lines += [f'w {kk} {rng.choice(TS_POOL)} - 3 {seed}', 'states']
+                seed += 1
+            lines += [rng.choice(['close_active', 'force always']), 'quiesce', 'states']
+            for kk in keys + absent:
+                lines += [f'cf {kk}', f'cfs {kk}', f'gfc {kk}', f'c {kk}', f'r {kk}']
+        return lines
     n = rng.randint(8, 20) if size == 'quick' else rng.randint(15, 60)
     for _ in range(n):
         x = rng.random()
